@@ -50,6 +50,17 @@ fn main() {
     let verif = PathBuf::from(env_or("TRUSIM_VERIF", "/verif"));
     let seed: u64 = env_or("VERIF_SEED", "1").parse().unwrap_or(1);
     let jobs: usize = env_or("TRUSIM_JOBS", "").parse().unwrap_or_else(|_| std::thread::available_parallelism().map(|n| n.get()).unwrap_or(4));
+    // sandboxes of earlier runs that were killed before they could clean up (tmpfs = RAM)
+    if let Ok(rd) = std::fs::read_dir("/dev/shm") {
+        for e in rd.flatten() {
+            let name = e.file_name().to_string_lossy().into_owned();
+            if let Some(pid) = name.strip_prefix("trusim.").and_then(|p| p.parse::<u32>().ok()) {
+                if !std::path::Path::new(&format!("/proc/{}", pid)).exists() {
+                    let _ = std::fs::remove_dir_all(e.path());
+                }
+            }
+        }
+    }
     let base_dir = PathBuf::from(format!("/dev/shm/trusim.{}", std::process::id()));
     std::fs::create_dir_all(&base_dir).expect("create /dev/shm sandbox base");
     let cfg = sandbox::Config {
